@@ -413,6 +413,17 @@ impl<CharIter: Iterator<Item = char>> Lexer<CharIter> {
         }
     }
 
+    // numeric literals that do not fit (or are incomplete, like the denominator of "1/")
+    // are syntax errors
+    fn parse_literal<N: std::str::FromStr>(&self, literal: &str) -> Result<N> {
+        literal.parse::<N>().or_else(|_| {
+            located_error!(
+                SyntaxError::Extension(format!("invalid number literal {}", literal)),
+                Some(self.location)
+            )
+        })
+    }
+
     fn number(&mut self) -> Result<Option<TokenData>> {
         match self.current.take() {
             Some(c) => {
@@ -443,8 +454,8 @@ impl<CharIter: Iterator<Item = char>> Lexer<CharIter> {
                                     Self::test_delimiter(Some(self.location), *dc)?;
                                 }
                                 break Ok(Some(TokenData::Primitive(Primitive::Rational(
-                                    number_literal.parse::<i32>().unwrap(),
-                                    match denominator.parse::<u32>().unwrap() {
+                                    self.parse_literal::<i32>(&number_literal)?,
+                                    match self.parse_literal::<u32>(&denominator)? {
                                         0 => {
                                             return located_error!(
                                                 SyntaxError::RationalDivideByZero,
@@ -458,13 +469,13 @@ impl<CharIter: Iterator<Item = char>> Lexer<CharIter> {
                             _ => {
                                 Self::test_delimiter(Some(self.location), *nc)?;
                                 break Ok(Some(TokenData::Primitive(Primitive::Integer(
-                                    number_literal.parse::<i32>().unwrap(),
+                                    self.parse_literal::<i32>(&number_literal)?,
                                 ))));
                             }
                         },
                         None => {
                             break Ok(Some(TokenData::Primitive(Primitive::Integer(
-                                number_literal.parse::<i32>().unwrap(),
+                                self.parse_literal::<i32>(&number_literal)?,
                             ))))
                         }
                     }
